@@ -209,7 +209,61 @@ def check_resample(inp):
 guarded = S.guarded
 
 
-CHECKERS = {"multipitch.metrics": guarded(check_metrics),
+def in_sequence(check):
+    """an input {"history": [inp1, inp2, ...]} is a sequence of calls made in one process; every call must satisfy the
+    property on its own input whatever was scored before it"""
+    def run(inp):
+        steps = inp["history"]
+        for k, step in enumerate(steps):
+            what = check(step)
+            if what:
+                return "call %d of %d consecutive calls in one process: %s" % (k + 1, len(steps), what)
+        return None
+    return run
+
+
+def _irregular_grid(rng, n, t0, t1):
+    """n strictly increasing lattice times from t0 to t1 (both included)"""
+    inner = sorted(rng.sample(range(int(t0 * 64) + 1, int(t1 * 64)), n - 2))
+    return [t0] + [Fr(x, 64) for x in inner] + [t1]
+
+
+def gen_resample_sequences(rng, tier, shard, nshards, boost):
+    """consecutive calls whose estimate time bases share length and end points (and therefore every cheap summary) but
+    not the interior time stamps; the target grid stays the same"""
+    n = (60 if tier == "quick" else 1000) * boost
+    for _ in range(n):
+        m = rng.randint(4, 8)
+        t0, t1 = Fr(rng.randint(0, 32), 32), Fr(rng.randint(96, 160), 32)
+        tg = sorted(t0 + Fr(rng.randint(0, int((t1 - t0) * 64)), 64) for _ in range(rng.randint(2, 8)))
+        steps = []
+        for _k in range(rng.choice([2, 2, 3])):
+            et = _irregular_grid(rng, m, t0, t1)
+            fs = [[Fr(100 + 10 * i + j) for j in range(rng.choice([0, 1, 1, 2]))] for i in range(m)]
+            steps.append({"times": S.S(et), "freqs": S.S(fs), "target": S.S(tg)})
+        yield {"history": steps}
+
+
+def gen_metrics_sequences(rng, tier, shard, nshards, boost):
+    n = (40 if tier == "quick" else 600) * boost
+    for _ in range(n):
+        den, w = S.pitch_setup(rng)
+        m = rng.randint(4, 7)
+        t0, t1 = Fr(rng.randint(0, 32), 32), Fr(rng.randint(96, 160), 32)
+        rt = sorted({t0 + Fr(rng.randint(0, int((t1 - t0) * 64)), 64) for _ in range(rng.randint(2, 7))})
+        rf = [S.ref_frame(rng, den) for _ in rt]
+        steps = []
+        for _k in range(2):
+            et = _irregular_grid(rng, m, t0, t1)
+            ef = [S.est_frame(rng, rng.choice(rf), den, w) for _ in et]
+            steps.append({"ref_time": S.S(rt), "ref_midi": S.S(rf), "est_time": S.S(et), "est_midi": S.S(ef),
+                          "window": None if w is None else str(w)})
+        yield {"history": steps}
+
+
+CHECKERS = {"multipitch.resample_multipitch(sequence)": guarded(in_sequence(check_resample)),
+            "multipitch.metrics(sequence)": guarded(in_sequence(check_metrics)),
+            "multipitch.metrics": guarded(check_metrics),
             "multipitch.compute_num_true_positives": guarded(check_num_true_positives),
             "multipitch.compute_scores": guarded(check_scores),
             "multipitch.resample_multipitch": guarded(check_resample)}
@@ -274,7 +328,9 @@ def gen_resample(rng, tier, shard, nshards, boost):
         yield {"times": S.S(et), "freqs": S.S(fs), "target": S.S(rt)}
 
 
-ORACLES = {"multipitch.metrics": gen_metrics,
+ORACLES = {"multipitch.resample_multipitch(sequence)": gen_resample_sequences,
+           "multipitch.metrics(sequence)": gen_metrics_sequences,
+           "multipitch.metrics": gen_metrics,
            "multipitch.compute_num_true_positives": gen_num_true_positives,
            "multipitch.compute_scores": gen_scores,
            "multipitch.resample_multipitch": gen_resample}
